@@ -210,6 +210,10 @@ def reservedNames : List String :=
 /-- attributes a `NicknameSlot` really has (anything else raises AttributeError) -/
 def slotAttrs : List String := ["id", "status", "allocated_id", "consumed", "id_manager", "consume_slot"]
 
+/-- attributes an `ObjectRow` really has besides its fields (`__getattr__` serves everything else
+    from the field values, hidden `__x` fields included; dunder names are Python's) -/
+def rowPrivateAttrs : List String := ["_tablename", "_values", "_child_index", "_id"]
+
 def objectName (s : St) (n : String) : Option Val :=
   match aget s.seen n with
   | some h => some (.row h)
@@ -279,8 +283,9 @@ def evalExpr (c : Ctx) : Expr → St → R Val
     | .error e => .error e
     | .ok (.undef, _) => .error (.recipe "attribute of undefined")
     | .ok (.row h, s1) =>
-      if f.startsWith "_" then .error (.outside "private attribute") else
-      .ok (((rowData s1 h).values.lookup f).getD .undef, s1)
+      if rowPrivateAttrs.contains f ∨ (f.startsWith "__" ∧ f.endsWith "__") then
+        .error (.outside "private attribute")
+      else .ok (((rowData s1 h).values.lookup f).getD .undef, s1)
     | .ok (.slot n, s1) =>
       if f = "id" then
         match slotId s1 n with
